@@ -23,6 +23,7 @@ import TonVerif.Drv.Boc
 import TonVerif.Drv.BocEntry
 import TonVerif.Drv.TlbSrc
 import TonVerif.Drv.TlbSrcTx
+import TonVerif.Drv.TlbSrcBlk
 
 open TonVerif TonVerif.Drv
 
@@ -45,7 +46,8 @@ def handlers : List (String → List String → Option String) := [
   Boc.handle?,
   BocEntry.handle?,
   TlbSrc.handle?,
-  TlbSrcTx.handle?
+  TlbSrcTx.handle?,
+  TlbSrcBlk.handle?
 ]
 
 def handle (op : String) (args : List String) : String :=
